@@ -464,6 +464,22 @@ func wideScenarios(tier string) []*Scenario {
 			return ok
 		})
 	}
+	// more than 20 steps that wait behind a gate whose failure ends the run (they are all still waiting
+	// for input when the engine aborts)
+	for _, n := range sizes {
+		p := progGateFanOut(n)
+		for _, g := range []struct {
+			name string
+			sc   env.StepScript
+		}{{"gate-ok", env.StepScript{}}, {"gate-error", env.StepScript{Run: env.RunErrorOut}}, {"gate-crash", env.StepScript{Run: env.RunCrash}}, {"gate-nodeploy", env.StepScript{Deploy: env.DeployFail}}} {
+			g := g
+			sc := &env.Script{Steps: map[string]*env.StepScript{"g": &g.sc}}
+			s := &Scenario{Class: p.Name, Prog: p, Script: sc, Input: map[string]any{"n": 5}}
+			s.Name = p.Name + "/" + g.name
+			s.Ref = evalProgram(p, sc, s.Input)
+			out = append(out, s)
+		}
+	}
 	return out
 }
 
